@@ -15,7 +15,7 @@
      solve_targets                                            the positions solve() will visit ([] when it rejects its arguments) *)
 From Coq Require Import ZArith List Bool PrimFloat.
 Import ListNotations.
-Require Import PyBase Solver SolverFacts SolverF SolveAll Tracer TracerSolve TracerFacts TracerFacts2 TracerF TracerExamples.
+Require Import PyBase Solver SolverFacts SolverF SolveAll Tracer TracerSolve TracerNames TracerFacts TracerFacts2 TracerFacts3 TracerF TracerExamples.
 Open Scope Z_scope.
 
 Section C17.
@@ -363,6 +363,28 @@ Section C17.
           (snap num zero (vals_of s1) t names :: snap num zero v0 t names
            :: map (fun j => snap num zero (st_after num ev o t v1 j) t names) (seq 0 (S k))).
   Proof. exact (fun H1 H2 H3 => solve_trace_shape_unsolved num sub absf ltb isfin zero cfg a ev before after H1 H2 H3 L d o l1 l2 t lab s tr acc p s1 tr1 acc1 s2 tr2 out). Qed.
+  (* Trace.to_dataframe() IS the labels x names table: after a traced solve that returns (or fails to converge), a Trace
+     that was well formed before (one label per stored column, one name per row — in particular an empty one) is
+     well formed and non-empty, so DataFrame(values.T, index=index, columns=names) is accepted: row labels = the labels,
+     columns = the names, row j = snapshot j. *)
+  Theorem C17_to_dataframe_after_run cfg a reset d o t s (tr : traces num) p s' tr' out :
+    shape_pres num ev -> shape_pres num before -> shape_pres num after ->
+    truthy a = true ->
+    names_valid num (vals_of s) t (names_of cfg (length (vals_of s)) a) ->
+    py_pos (length tr) t = Some p -> length tr = length (status s) ->
+    wf_trace num (nth p tr (empty_trace num)) = true ->
+    reset = true \/ width_ok num (nth p tr (empty_trace num)) (length (names_of cfg (length (vals_of s)) a)) ->
+    traced_solve_t cfg a reset ev before after d o t s tr = ((s', tr'), out) ->
+    out = Ret true \/ out = Ret false \/ out = Raise NonConvergenceError ->
+    let X := nth p tr' (empty_trace num) in
+    to_dataframe num X = Ret (tr_index X, tr_names X, tr_values X) /\ tr_values X <> [].
+  Proof. exact (fun H1 H2 H3 => to_dataframe_after_run num sub absf ltb isfin zero cfg a reset ev before after H1 H2 H3 d o t s tr p s' tr' out). Qed.
+
+  (* a successful trace_t (solve-internal or called directly) keeps a Trace well formed *)
+  Theorem C17_trace_t_keeps_traces_well_formed names reset (old : trace num) lab res :
+    wf_trace num old = true -> reset = true \/ width_ok num old (length names) -> length res = length names ->
+    wf_trace num (push num names reset old lab res) = true.
+  Proof. exact (push_wf num names reset old lab res). Qed.
 End C17.
 
 (* FINDING #16 (still present).  Without the width guard non-interference is false: valid names, t in the span,
@@ -378,6 +400,15 @@ Theorem C17_trace_width_mismatch_refuted :
     fst (fst (f_traced_solve_t sc cfg a false d o t s tr)) = s.
 Proof. exact trace_width_mismatch_refuted. Qed.
 
+(* FINDING #16, second consequence: the failed append leaves a label without a column in the period's Trace, so from
+   then on Trace.to_dataframe() of that period raises ValueError although it worked before the call. *)
+Theorem C17_to_dataframe_after_width_mismatch_refuted :
+  exists (sc : scripts) (cfg : tcfg) (d : mdesc) (o : fopts) (t : Z) (s : fstate) (tr : ftraces) (a : targ) (p : nat),
+    truthy a = true /\ py_pos (length tr) t = Some p /\
+    (exists f, to_dataframe float (nth p tr (empty_trace float)) = Ret f) /\
+    to_dataframe float (nth p (snd (fst (f_traced_solve_t sc cfg a false d o t s tr))) (empty_trace float)) = Raise ValueError.
+Proof. exact to_dataframe_after_width_mismatch_refuted. Qed.
+
 (* NEW FINDING (same root as #16).  "Records it faithfully" fails for a repeated traced solve with ANOTHER name list of
    the same length (default reset=False): the call succeeds, but the Trace keeps the names of the first call while
    the appended snapshots hold the values of the variables named NOW — V1's values filed under the column V0. *)
@@ -390,6 +421,49 @@ Theorem C17_trace_stale_names_refuted :
     last (tr_values (nth p (snd (fst R)) (empty_trace float))) []
     = snap float fzero (vals_of (fst (fst R))) t (names_of cfg (length (vals_of s)) a).
 Proof. exact trace_stale_names_refuted. Qed.
+
+(* A TRACE IS A RECORD (fix cfb58ac: `names = list(names)` in trace_t; the earlier finding "Trace.names is the model's own
+   names list" is repaired).  With Python's reference semantics explicit (TracerNames.v: list objects in a heap, trace= given
+   as None / bool / str / a list OBJECT / a tuple / any other truthy non-Sequence): the list a Trace keeps is a NEW object
+   holding exactly the names Tracer.names_of selects; the call changes no existing object; and whatever is done afterwards,
+   in any order and any number of times, to ANY other list object — the model's names list (add_variable appends in
+   place), the class's TRACE_VARIABLES, the list the caller passed, lists created later — the Trace's names stay. *)
+Theorem C17_trace_names_fresh_copy e s h :
+  let '(h', r) := trace_names e s h in
+  r = length h /\ deref h' r = sel_contents h (select e s) /\
+  length h' = S (length h) /\ (forall a, (a < length h)%nat -> deref h' a = deref h a).
+Proof. exact (trace_names_fresh e s h). Qed.
+
+Theorem C17_trace_names_is_the_value_traced e s h nvars :
+  deref h (e_model_names e) = seq 0 nvars ->
+  sel_contents h (select e s) = names_of (tcfg_of h e) nvars (targ_of h s).
+Proof. exact (sel_contents_names_of e s h nvars). Qed.
+
+Theorem C17_trace_names_survive_later_edits e s h ms :
+  let '(h', r) := trace_names e s h in
+  (forall m, In m ms -> fst m <> r) ->
+  deref (mutates h' ms) r = sel_contents h (select e s).
+Proof. exact (trace_names_private e s h ms). Qed.
+
+Theorem C17_trace_names_survive_edits_of_everything_that_existed e s h ms :
+  (forall m, In m ms -> (fst m < length h)%nat) ->
+  deref (mutates (fst (trace_names e s h)) ms) (snd (trace_names e s h)) = sel_contents h (select e s).
+Proof. exact (trace_names_private_existing e s h ms). Qed.
+
+Theorem C17_trace_names_alias_nothing e s h :
+  (e_model_names e < length h)%nat ->
+  (forall c, e_trace_variables e = Some c -> (c < length h)%nat) ->
+  (forall c, s = NSList c -> (c < length h)%nat) ->
+  alias_flags e s (snd (trace_names e s h)) = (false, false, false).
+Proof. exact (trace_names_no_alias e s h). Qed.
+
+(* what the fix removed (the code of the reverse patch, trace_names_nocopy): trace=True kept the model's own list, so
+   add_variable's in-place append showed up in the Trace *)
+Theorem C17_trace_names_without_the_copy_shared :
+  exists e s h l,
+    let '(h', r) := trace_names_nocopy e s h in
+    r = e_model_names e /\ deref (mutate h' (e_model_names e) l) r <> sel_contents h (select e s).
+Proof. exact trace_names_nocopy_shared. Qed.
 
 (* Outside the property's domain (t not in the span) the exception class can differ: IndexError from trace_t before
    the base class's ValueError for min_iter > max_iter. *)
@@ -420,6 +494,9 @@ Print Assumptions C17_traced_solve_no_targets.
 Print Assumptions C17_trace_reset_every_path.
 Print Assumptions C17_trace_accumulates.
 Print Assumptions C17_trace_names_after_run.
+Print Assumptions C17_to_dataframe_after_run.
+Print Assumptions C17_trace_t_keeps_traces_well_formed.
+Print Assumptions C17_to_dataframe_after_width_mismatch_refuted.
 Print Assumptions C17_solve_trace_shape_solved.
 Print Assumptions C17_solve_trace_shape_unsolved.
 Print Assumptions C17_trace_stale_names_refuted.
@@ -430,6 +507,12 @@ Print Assumptions C17_trace_of_run.
 Print Assumptions C17_trace_every_path.
 Print Assumptions C17_trace_reset_keeps_last_only.
 Print Assumptions C17_trace_width_mismatch_refuted.
+Print Assumptions C17_trace_names_fresh_copy.
+Print Assumptions C17_trace_names_is_the_value_traced.
+Print Assumptions C17_trace_names_survive_later_edits.
+Print Assumptions C17_trace_names_survive_edits_of_everything_that_existed.
+Print Assumptions C17_trace_names_alias_nothing.
+Print Assumptions C17_trace_names_without_the_copy_shared.
 Print Assumptions C17_trace_out_of_span_refuted.
 Print Assumptions C17_scripted_oracles_shape_pres.
 Print Assumptions tx_ready.
